@@ -38,13 +38,23 @@ SCENARIO_TIMEOUT = 500
 SCENARIO_WORKERS = 4
 
 
+def SLAB(seed):
+    """a refined SLAB: the fine level spans the whole cross-section but only part of the extent along z (and x for the second
+    one): next to the slab's faces one bracketing sample is fine, the other has to come from the coarse level"""
+    l0 = [[[i, j, k], [i + 7, j + 7, k + 7]] for i in (0, 8) for j in (0, 8) for k in (0, 8)]
+    l1 = [[[i, j, 8], [i + 15, j + 15, 23]] for i in (0, 16) for j in (0, 16)]
+    return {"kind": "slice", "seed": seed * 1000 + 1090, "ndims": 3, "nf": 2, "nfiles": 2, "layout": "shuffled", "n0": [16, 16, 16],
+            "levels": [l0, l1], "geo_lo": [1.0, 2.0, 3.0], "dx0": [0.1, 0.2, 0.4], "payload": "affine", "ncombos": 3, "npos": 16,
+            "normals": [2]}
+
+
 def scenarios(tier, seed):
     n = 4 if tier == "quick" else 12
     return [{"kind": "slice", "seed": seed * 1000 + 1000 + i, "ndims": 3, "nf": [2, 3][i % 2], "nlevels": [2, 3, 2, 1][i % 4],
              "nfiles": [2, 3][i % 2], "layout": ["shuffled", "roundrobin"][i % 2], "n0": [[16, 16, 16], [16, 8, 24]][i % 2],
              "geo_lo": [[1.0, 2.0, 3.0], [0., 0., 0.]][i % 2], "dx0": [[0.1, 0.2, 0.4], [1., 0.5, 0.25]][i % 2],
              "payload": ["affine", "random"][i % 2], "ncombos": 2 if tier == "quick" else 5,
-             "npos": 13 if tier == "quick" else 30} for i in range(n)]
+             "npos": 13 if tier == "quick" else 30} for i in range(n)] + [SLAB(seed)]
 
 
 def run_scenario(p, wd):
